@@ -185,6 +185,7 @@ var c05Fields = []fieldDef{
 //   W/zw/R-evil/{zf.yaml, kust.yaml, zd/zf.yaml, zlid -> ../R, zlod -> zd}     outside (canary), no kustomization.
 //       The name of the outside directory extends the root's name: a string-prefix containment test
 //       (instead of a component-wise one) would take it for a part of the root.
+//   W/zw/Top, Mid, Base, Sib/{zf.yaml, kust.yaml, zd/zf.yaml}   outside (canary): the root's name up to letter case.
 //   W/zw/klo/kustomization.yaml -> ../top-evil/kust.yaml   (a root whose kustomization file is a link to the outside)
 //   W/zw/kli/kustomization.yaml -> real.yaml               (… to a file inside)
 //
@@ -236,6 +237,12 @@ func buildWorld(f fieldDef, prefix []string, links bool) *world {
 		t.addFile(ev+aFile, can(r+"-evil"))
 		t.addFile(ev+aDir+"/"+aFile, can(r+"-evil-d"))
 		t.addFile(ev+"kust.yaml", "namePrefix: "+c05Canary+"-\nresources:\n- cm.yaml\n")
+		// … and a sibling whose name is the root's name up to letter case (top / Top): a containment test
+		// that folds case (right for some other platforms' file systems, wrong here) would take it for the root
+		cv := "zw/" + titleName(r) + "/"
+		t.addFile(cv+aFile, can(r+"-case"))
+		t.addFile(cv+aDir+"/"+aFile, can(r+"-case-d"))
+		t.addFile(cv+"kust.yaml", "namePrefix: "+c05Canary+"-\nresources:\n- cm.yaml\n")
 		if links {
 			t.addLink(ev+aLid, "../"+r)
 			t.addLink(ev+aLod, aDir)
@@ -295,8 +302,16 @@ func (w *world) atoms(depth int) []atom {
 		out = append(out, atom{text: aLid, isLink: true}, atom{text: aLod, isLink: true},
 			atom{text: aLif, term: true, isLink: true}, atom{text: aLof, term: true, isLink: true})
 	}
-	out = append(out, atom{text: root, first: true}, atom{text: root + "-evil", first: true})
+	out = append(out, atom{text: root, first: true}, atom{text: root + "-evil", first: true}, atom{text: caseVariant(root), first: true})
 	return out
+}
+
+func titleName(s string) string { return strings.ToUpper(s[:1]) + s[1:] }
+
+// caseVariant: the sibling directory whose path is the root's up to letter case (…/zw/top -> …/zw/Top).
+func caseVariant(root string) string {
+	i := strings.LastIndex(root, "/")
+	return root[:i+1] + titleName(root[i+1:])
 }
 
 // exprs enumerates the path expressions of 1..maxLen atoms: an absolute prefix only in first
@@ -320,5 +335,8 @@ func (w *world) exprs(depth, maxLen int) []string {
 		}
 	}
 	rec(nil, 0, false)
+	// the case-variant sibling by relative paths
+	cap := titleName([]string{"top", "mid", "base"}[depth-1])
+	out = append(out, "../"+cap, "../"+cap+"/"+aFile, "../"+cap+"/"+aDir+"/"+aFile, aDir+"/../../"+cap+"/"+aFile, "../"+cap+"/../"+cap+"/kust.yaml")
 	return out
 }
